@@ -6,7 +6,7 @@ import re
 from typing import List, Optional
 
 from .. import cfg as cfgmod
-from ..astutil import alias_map, call_name, expand_alias, fstring_parts
+from ..astutil import kwarg, alias_map, call_name, expand_alias, fstring_parts
 from ..index import AnalysisError, AnchorVanished, norm, short, walk_local
 
 LEVEL = "other"
@@ -369,4 +369,33 @@ def r16_7(ctx):
     borrow(ctx, r13_2, "R13.2", "R16.7", " [premise of 'kept on one line only if that line fits': Node.check_length measures the one-line form with cell_len, so the width-table lookup behind it must select the right range for every code point]")
 
 
-RULES = [r16_1, r16_2, r16_3, r16_4, r16_5, r16_6, r16_7]
+def r16_8(ctx):
+    ctx.rule("R16.8", "expanding a line keeps what follows it: in _Line.expand the closing-brace line carries the suffix of the line being expanded (`self.suffix` - the separator, or the one-tuple comma, that the parent attached to this child), not a separator recomputed from the node alone; otherwise the comma of a one-element tuple is lost as soon as its element is expanded and `([1, 2],)` prints as an expression that evaluates to the list")
+    from ..astutil import inline as _inl, single_defs as _sdf
+    m = ctx.repo.mod("pretty")
+    ex = m.fn("_Line.expand")
+    sd = _sdf(ex.node)
+    closes = []
+    for x in walk_local(ex.node):
+        if isinstance(x, ast.Call) and norm(x.func) == "_Line":
+            t = kwarg(x, "text")
+            if t is not None and norm(_inl(t, sd)) in ("node.close_brace", "self.node.close_brace"):
+                closes.append(x)
+    if not closes:
+        raise AnalysisError("_Line.expand: no `_Line(text=<node>.close_brace, ...)` found - the closing line is built in a way this rule does not read")
+    for c in closes:
+        sx = kwarg(c, "suffix")
+        where = f"{m.relpath}:{c.lineno}"
+        if sx is None:
+            ctx.violation(ex.fq, short(c), where, "the closing-brace line of an expanded container has no suffix: the separator after a nested container (and the comma of a one-element tuple) is dropped")
+            continue
+        v = norm(_inl(sx, sd))
+        if v == "self.suffix":
+            ctx.ok(where, "closing line carries self.suffix", ex.fq)
+        elif "self.suffix" not in v:
+            ctx.violation(ex.fq, short(c), where, f"the closing-brace line gets `{short(sx)}` instead of the expanded line's own suffix (self.suffix): when this node is the single element of a tuple the parent's ',' is lost on expansion - pretty_repr(([1, 2],), expand_all=True) evaluates to [1, 2], not to the tuple")
+        else:
+            raise AnalysisError(f"_Line.expand: closing-line suffix `{v}` mixes self.suffix with other terms; not decided")
+
+
+RULES = [r16_1, r16_2, r16_3, r16_4, r16_5, r16_6, r16_7, r16_8]
